@@ -420,4 +420,70 @@ theorem run_inv {cfg : Cfg} {es : List Event} {s s' : St} {hist : List Event} (h
 theorem init_inv (cfg : Cfg) (k : Nat) : TaskInv cfg [] (init k).task := by
   intro r; simp [init, taskOk]
 
+/-! ### the certificate path -/
+
+def ctaskOk (r : Nat) (hist : List CEvent) : CTask → Prop
+  | .got p => CEvent.answer p ∈ hist ∧ p.brnd = r ∧ p.crnd = r
+  | _ => True
+
+theorem cstep_inv {r : Nat} {tr : Id} {t t' : CTask} {e : CEvent} {hist : List CEvent}
+    (h : cstep r tr t e = .ok t') (_hinv : ctaskOk r hist t) : ctaskOk r (hist ++ [e]) t' := by
+  cases e with
+  | request =>
+    simp only [cstep] at h
+    split at h
+    · cases h; trivial
+    · split at h
+      · simp at h
+      · cases h; trivial
+    · simp at h
+  | answer p =>
+    simp only [cstep] at h
+    split at h
+    · split at h
+      · rename_i hr
+        cases h
+        exact ⟨by simp, hr.1, hr.2⟩
+      · cases h; trivial
+    · simp at h
+  | err =>
+    simp only [cstep] at h
+    split at h
+    · cases h; trivial
+    · simp at h
+  | ensure b c =>
+    simp only [cstep] at h
+    split at h
+    · split at h; · simp at h
+      split at h; · simp at h
+      split at h; · simp at h
+      split at h; · simp at h
+      cases h; trivial
+    · simp at h
+
+theorem crun_inv {r : Nat} {tr : Id} {es : List CEvent} {t t' : CTask} {hist : List CEvent}
+    (h : crun r tr t es = .ok t') (hinv : ctaskOk r hist t) : ctaskOk r (hist ++ es) t' := by
+  induction es generalizing t hist with
+  | nil => simp only [crun] at h; cases h; simpa using hinv
+  | cons e es ih =>
+    simp only [crun] at h
+    cases h1 : cstep r tr t e with
+    | error x => rw [h1] at h; simp at h
+    | ok t1 =>
+      rw [h1] at h
+      have := ih h (cstep_inv h1 hinv)
+      simpa using this
+
+theorem crun_append (r : Nat) (tr : Id) (t : CTask) (a b : List CEvent) :
+    crun r tr t (a ++ b) = match crun r tr t a with
+      | .ok t' => crun r tr t' b
+      | .error x => .error x := by
+  induction a generalizing t with
+  | nil => simp [crun]
+  | cons e es ih =>
+    simp only [List.cons_append, crun]
+    cases cstep r tr t e with
+    | error x => simp
+    | ok t' => simpa using ih t'
+
 end AlgoVerif.Lemmas.Catchup
